@@ -387,6 +387,37 @@ func (ex *Exec) vrt(g *G, f *Frame, name string, fn *ssa.Function, args []Value)
 		}
 		ex.assertTerm(label, ex.eqTerm(a, b), known)
 		return nil, false
+	case "Possible", "PossibleAt":
+		if ex.spec > 0 {
+			panic(mergeAbort{"possible in arm"})
+		}
+		label := strArg(args[0])
+		var b Bool
+		if name == "PossibleAt" {
+			label = fmt.Sprintf("%s[%d]", label, ex.concInt(args[1], "label index"))
+			b = args[2].(Bool)
+		} else {
+			b = args[1].(Bool)
+		}
+		rec := AssertRec{Label: label, Kind: "never"}
+		if b.T == nil {
+			if b.C {
+				rec.Result = "trivial"
+			} else {
+				rec.Result = "violated"
+			}
+		} else {
+			switch r, _ := ex.Sol.Check([]*Term{b.T}, nil); r {
+			case Sat:
+				rec.Result = "holds"
+			case Unsat:
+				rec.Result = "violated"
+			default:
+				rec.Result = "unknown"
+			}
+		}
+		ex.Asserts = append(ex.Asserts, rec)
+		return nil, false
 	case "Reach":
 		label := strArg(args[0])
 		if _, seen := ex.Reach[label]; !seen || !ex.Reach[label] {
